@@ -167,6 +167,24 @@ theorem sum_update [DecidableEq ι] (s : Finset ι) (f : ι → ℚ) (j : ι) (h
     intro i; split <;> simp
   simp only [this, Finset.sum_add_distrib, Finset.sum_ite_eq', hj, if_true]
 
+/-- a datum routed by selectors: when exactly one slot `j` of the index set is selected and every slot moves
+by `w` iff it is selected, the total moves by `w`.  Its premises are the routing-partition lemma
+(`lemma:routing-exclusive`, `lemma:routing-exhaustive`) and the pointwise view clause of `fill`. -/
+theorem sum_routed [DecidableEq ι] (s : Finset ι) (f f' : ι → ℚ) (sel : ι → Prop) [DecidablePred sel] (w : ℚ)
+    (j : ι) (hj : j ∈ s) (hsel : ∀ i ∈ s, (sel i ↔ i = j))
+    (hf : ∀ i ∈ s, f' i = f i + (if sel i then w else 0)) :
+    ∑ i ∈ s, f' i = ∑ i ∈ s, f i + w := by
+  have h1 : ∀ i ∈ s, f' i = (if i = j then f i + w else f i) := by
+    intro i hi
+    rw [hf i hi]
+    by_cases h : i = j
+    · have hs : sel i := (hsel i hi).mpr h
+      rw [if_pos hs, if_pos h]
+    · have hs : ¬ sel i := fun hs => h ((hsel i hi).mp hs)
+      rw [if_neg hs, if_neg h, add_zero]
+  rw [Finset.sum_congr rfl h1]
+  exact sum_update s f j hj w
+
 /-- extensionality: pointwise equal families have equal sums -/
 theorem sum_congr' (s : Finset ι) (f g : ι → ℚ) (h : ∀ i ∈ s, f i = g i) : ∑ i ∈ s, f i = ∑ i ∈ s, g i :=
   Finset.sum_congr rfl h
